@@ -2,6 +2,7 @@ import TF.Proofs.PolyInterp
 import TF.Proofs.PolyInterpBary
 import TF.Proofs.PolyInterpEO
 import TF.Proofs.PolyInterpMemo
+import TF.Proofs.PolyInterpDup
 /-!
 # C08 — interpolation, bulk evaluation, zerofiers and coset extrapolation are exact
 
@@ -180,6 +181,21 @@ theorem batch_fast_interpolate_spec (t : Thr) (hT : 2 ≤ t.zf) (hRT : 0 < t.rt)
     ∃ res, batchFastInterpolateWith FK E t domain matrix = some res ∧
       List.Forall₂ (fun row r => Interpolates domain row (denote r)) matrix res :=
   batchFastInterpolateWith_spec root hE t hT hRT hB domain matrix hne hn hrows
+
+/-- the excluded point sets: with a **repeated abscissa** every strategy panics — `lagrange_interpolate` divides by
+    `summand_eval = 0`, the divide-and-conquer step batch-inverts a zero offset or recurses into a half with the
+    repetition — for `interpolate` and `par_interpolate`, every cut-off, thread count `≥ 1`, leaf size `≥ 1`,
+    zerofier cut-off `≥ 2`. -/
+theorem interpolate_repeated_abscissae_panics (t : Thr) (hT : 2 ≤ t.zf) (hRT : 0 < t.rt) (threads : Nat)
+    (hth : 0 < threads) (domain values : List K) (hdup : ¬ domain.Nodup) :
+    interpolateWith FK E t domain values = none ∧ parInterpolateWith FK E t threads domain values = none ∧
+      (domain.length = values.length → lagrangeInterpolateWith FK E t.zf domain values = none) :=
+  ⟨interpolateFuel_dup root hE t t.seq _
+      (fun p d => batchEvaluateWith_total root hE t.ratio t.rt t.zf hRT hT p d) _ domain values hdup,
+   interpolateFuel_dup root hE t t.par _
+      (fun p d => parBatchEvaluateWith_total root hE t.ratio t.rt t.zf threads hRT hT hth p d) _ domain values hdup,
+   fun hl => lagrangeInterpolateWith_dup root hE t.zf domain values hdup hl⟩
+example : ¬ ([3, 5, 3] : List ℚ).Nodup := by decide
 
 omit hE in
 /-- the excluded inputs: `interpolate` / `par_interpolate` panic on an empty domain and on lists of different
